@@ -143,7 +143,7 @@ def sumSq (sim tgt w : List (Option K)) : K :=
     ((List.zipWith (lift2 (· - ·)) tgt sim).map (Option.map fun d => d * d)) w)
 
 /-- `reduced_chi_squared`: `nansum(((target − simulated)/weighting)²) / (#finite(diff) − free)`;
-`dof` is handed over as a field element by the caller (`ofNat` of the count minus `free`) -/
+`ofInt` embeds the integer number of degrees of freedom into the field -/
 def redChi2 (ofInt : Int → K) (free : Int) (sim tgt w : List (Option K)) : K :=
   let diff := List.zipWith (lift2 (· - ·)) tgt sim
   let dev := (List.zipWith (lift2 (· / ·)) diff w).map (Option.map fun d => d * d)
